@@ -152,11 +152,6 @@ theorem step_getInput2_some (P : Prog) (c : Cfg) (scr : Nat) (args : Option Nat)
           (.scr scr) (P.spec scr).skipCheck (some scr)).1 (.scr scr) (promptText P defaultPrompt) := by
   unfold step; simp only [hc, hp, Bool.false_eq_true, if_false]; rfl
 
-/-- the prompt text of a blocking request -/
-def blockingText (P : Prog) (cont : Bool) : Str :=
-  if cont then promptText P contPrompt else
-    (match textPrompt P.cc msgPrompt P.width with | .ok s => s | .error _ => [])
-
 theorem step_blockingInput (P : Prog) (c : Cfg) (scr : Nat) (cont : Bool) (rest : List Instr)
     (hc : c.code = .blockingInput scr cont :: rest) :
     step P c =
